@@ -74,12 +74,15 @@ func branchesReposDecode(b []byte) ([]BranchRepos, error) {
 		return nil, fmt.Errorf("unsupported BranchRepos encoding version %d", v)
 	}
 
-	l := r.uvarint() // Length
+	l := r.length() // Length
 	brs := make([]BranchRepos, l)
 
 	for i := range l {
 		brs[i].Branch = r.str()
 		brs[i].Repos = r.bitmap()
+		if r.err != nil {
+			return nil, r.err
+		}
 	}
 
 	return brs, r.err
@@ -167,11 +170,15 @@ func stringSetDecode(b []byte) (map[string]struct{}, error) {
 	}
 
 	// Length
-	l := r.uvarint()
+	l := r.length()
 	set := make(map[string]struct{}, l)
 
 	for range l {
-		set[r.str()] = struct{}{}
+		s := r.str()
+		if r.err != nil {
+			return nil, r.err
+		}
+		set[s] = struct{}{}
 	}
 
 	return set, r.err
@@ -184,7 +191,8 @@ type binaryReader struct {
 
 func (b *binaryReader) uvarint() int {
 	x, n := binary.Uvarint(b.b)
-	if n < 0 {
+	if n <= 0 {
+		// n == 0 is truncated input, n < 0 is overflow.
 		b.b = nil
 		b.err = errors.New("malformed RepoBranches")
 		return 0
@@ -193,23 +201,29 @@ func (b *binaryReader) uvarint() int {
 	return int(x)
 }
 
-func (b *binaryReader) str() string {
+// length reads a count or a byte length. Every counted element occupies at
+// least one byte, so a length that is negative or exceeds the remaining input
+// is malformed. This bounds loops and allocations by the size of the input.
+func (b *binaryReader) length() int {
 	l := b.uvarint()
-	if l > len(b.b) {
+	if l < 0 || l > len(b.b) {
 		b.b = nil
 		b.err = errors.New("malformed RepoBranches")
-		return ""
+		return 0
 	}
+	return l
+}
+
+func (b *binaryReader) str() string {
+	l := b.length()
 	s := b2s(b.b[:l])
 	b.b = b.b[l:]
 	return s
 }
 
 func (b *binaryReader) bitmap() *roaring.Bitmap {
-	l := b.uvarint()
-	if l > len(b.b) {
-		b.b = nil
-		b.err = errors.New("malformed BranchRepos")
+	l := b.length()
+	if b.err != nil {
 		return nil
 	}
 	r := roaring.New()
